@@ -11,6 +11,8 @@
 
 #include <rapidcheck.h>
 
+#include "outcome.hpp"
+
 #include <algorithm>
 #include <chrono>
 #include <cstdint>
@@ -68,70 +70,11 @@ inline Options parse_options(int argc, char** argv, const char* prop)
       else if (a == "--out") o.out = next();
       else if (a == "--replay") o.replay = next();
       else if (a == "--replay-dir") o.replay_dir = next();
-      else if (a == "--known") {
-         std::stringstream ss(next());
-         std::string s;
-         while (std::getline(ss, s, ','))
-            if (!s.empty()) o.known.insert(s);
-      }
+      else if (a == "--known") o.known.insert(next());   // one signature per --known (signatures may contain commas)
       else if (a.rfind("--x-", 0) == 0) o.extra[a.substr(4)] = next();
    }
    return o;
 }
-
-// ------------------------------------------------------------------- json --
-inline std::string jstr(const std::string& s)
-{
-   std::string r = "\"";
-   for (unsigned char c : s) {
-      switch (c) {
-      case '"': r += "\\\""; break;
-      case '\\': r += "\\\\"; break;
-      case '\n': r += "\\n"; break;
-      case '\t': r += "\\t"; break;
-      default:
-         if (c < 0x20 || c >= 0x7f) {
-            char b[8];
-            std::snprintf(b, sizeof b, "\\u%04x", c);
-            r += b;
-         }
-         else
-            r += char(c);
-      }
-   }
-   return r + "\"";
-}
-
-inline std::uint64_t fnv1a(const void* p, std::size_t n, std::uint64_t h = 1469598103934665603ull)
-{
-   auto b = static_cast<const unsigned char*>(p);
-   for (std::size_t i = 0; i < n; ++i) {
-      h ^= b[i];
-      h *= 1099511628211ull;
-   }
-   return h;
-}
-inline std::uint64_t fnv1a(const std::string& s) { return fnv1a(s.data(), s.size()); }
-
-// ---------------------------------------------------------------- outcome --
-// What one executed case reports back.
-struct Finding {
-   std::string signature;   // property:clause:discriminator -- never an address or a counter
-   std::string message;     // human-readable detail (may contain addresses)
-};
-
-struct Outcome {
-   std::vector<Finding> findings;
-   bool nontrivial = false;
-   std::map<std::string, long> classes;   // counters merged into the evidence
-   void fail(const std::string& sig, const std::string& msg)
-   {
-      for (auto& f : findings)
-         if (f.signature == sig) return;
-      findings.push_back({sig, msg});
-   }
-   void count(const std::string& k, long n = 1) { classes[k] += n; }
-};
 
 struct Violation {
    std::string signature;
@@ -339,6 +282,7 @@ int drive(int argc, char** argv, const char* prop, Hooks<Case> hk)
    if (hk.exhaustive && o.shard == 0) hk.exhaustive(o, tally);
 
    std::set<std::string>& excluded = tally.excluded;
+   const bool survey = o.get("survey", 0) != 0;   // triage aid: tally every signature, never fail
    std::string target;       // signature being shrunk, empty while searching
    Case last_fail{};
    std::string last_msg;
@@ -383,8 +327,8 @@ int drive(int argc, char** argv, const char* prop, Hooks<Case> hk)
             if (v > 0) ++tally.class_cases[k];
          }
          for (auto& f : out.findings) {
-            if (excluded.count(f.signature)) {
-               if (++tally.excluded_hits[f.signature] == 1) tally.excluded_example[f.signature] = f.message;
+            if (survey || excluded.count(f.signature)) {
+               if (++tally.excluded_hits[f.signature] == 1) tally.excluded_example[f.signature] = f.message + "\n" + text;
                continue;
             }
             target = f.signature;
